@@ -1,7 +1,7 @@
 #!/bin/bash
 # usage: trypatch.sh <patch.diff> [jpverif args...]   — analyse a scratch worktree of /repo HEAD with the patch applied
 set -u
-P=$1; shift
+P=$(readlink -f "$1"); shift
 WT=/tmp/wt/mut
 if [ ! -d $WT ]; then git -C /repo worktree add --detach $WT HEAD >/dev/null 2>&1; fi
 git -C $WT checkout -q --detach $(git -C /repo rev-parse HEAD) 2>/dev/null
